@@ -4,6 +4,12 @@ An instance is one Kani proof harness = one call of a generic harness body in
 /verif/harness/src with concrete size/kind/group parameters. `./check gen` writes
 /verif/harness/src/generated.rs from this table; the runner selects instances per
 property and tier.
+
+Tiering rule of thumb (measured, 16 jobs in parallel): a PriorityQueue step costs
+10-40 s up to n=4; a DoublePriorityQueue step that goes through up_heapify (push,
+change_priority*, remove, pop_max_if, push_increase/decrease) costs 100-170 s from n=2
+on with fully symbolic tables and 35-75 s when the obligation is split on the position of
+the addressed element. The quick tier is sized to ~3-5 min per property.
 """
 
 QUICK, THOROUGH = "quick", "thorough"
@@ -20,9 +26,12 @@ _names = set()
 
 
 def inst(name, expr, kind, nmax, props, family, meta=None, memsafe=True, unwind_min=0,
-         cost=30, mem=3, covers_required=True):
+         cost=None, mem=3, covers_required=True):
     assert name not in _names, name
     _names.add(name)
+    props = {p: t for p, t in props.items() if t is not None}
+    if cost is None:
+        cost = (nmax + 1) * (12 if KINDS[kind]["double"] else 3)
     INSTANCES.append(dict(
         name=name, expr=expr, kind=kind, nmax=nmax, props=props, family=family,
         meta=meta or {}, memsafe=memsafe, unwind_min=unwind_min, cost=cost, mem=mem,
@@ -30,23 +39,38 @@ def inst(name, expr, kind, nmax, props, family, meta=None, memsafe=True, unwind_
     ))
 
 
-def tiers(prop_tiers):
-    """{'C01': QUICK, ...}"""
-    return dict(prop_tiers)
+def tq(n, qmax, tmax=99):
+    """tier of an instance of size n: quick up to qmax, thorough up to tmax, else none"""
+    if n <= qmax:
+        return QUICK
+    if n <= tmax:
+        return THOROUGH
+    return None
 
 
 GRP = {"all": "step::ALL", "st": "step::STRUCT", "or": "step::ORDER", "mo": "step::MODEL"}
 PRE = {"inv": "Pre::Inv", "cs": "Pre::CrashSafe"}
 TAB = {"any": "Tables::Any", "id": "Tables::Identity"}
+B = {True: "true", False: "false"}
 
 
-def step(op, kind, n, pre, grp, props, tables="any", grow=1, **kw):
+def tab_expr(tables):
+    if tables.startswith("idk"):
+        return f"Tables::IdentityKey({int(tables[3:])})"
+    return TAB[tables]
+
+
+def ordprop(kind):
+    return "C02" if KINDS[kind]["double"] else "C01"
+
+
+def step(op, kind, n, pre, grp, props, tables="any", grow=0, **kw):
     ty = KINDS[kind]["ty"]
-    name = f"step_{kind}_{op}_n{n}_{pre}_{grp}" + ("" if tables == "any" else "_id")
-    expr = f"step::{op}::<{ty}, {n}>({PRE[pre]}, {TAB[tables]}, {GRP[grp]})"
+    name = f"step_{kind}_{op}_n{n}_{pre}_{grp}" + ("" if tables == "any" else "_" + tables)
+    expr = f"step::{op}::<{ty}, {n}>({PRE[pre]}, {tab_expr(tables)}, {GRP[grp]})"
+    kw.setdefault("covers_required", n > 0 and tables == "any")
     inst(name, expr, kind, n + grow, props, "STEP",
-         meta=dict(op=op, kind=kind, n=n, pre=pre, group=grp, tables=tables),
-         covers_required=(n > 0), **kw)
+         meta=dict(op=op, kind=kind, n=n, pre=pre, group=grp, tables=tables), **kw)
 
 
 def retain(op, kind, n, pat, pre, grp, props, **kw):
@@ -55,107 +79,137 @@ def retain(op, kind, n, pat, pre, grp, props, **kw):
     expr = f"step::{op}::<{ty}, {n}, {pat}>({PRE[pre]}, {TAB['any']}, {GRP[grp]})"
     inst(name, expr, kind, n, props, "STEP",
          meta=dict(op=op, kind=kind, n=n, pre=pre, group=grp, tables="any", verdicts=f"{pat:0{max(n,1)}b}"),
-         covers_required=(n > 0), **kw)
+         covers_required=False, **kw)
+
+
+# heavy = goes through DoublePriorityQueue::up_heapify (two trickle-downs + bubble-up)
+HEAVY = {"push", "change_priority", "change_priority_by", "change_priority_item", "remove",
+         "push_increase", "push_decrease", "pop_hi_if"}
+
+
+def qmax_of(kind, op, base_pq, base_dq_light=3, base_dq_heavy=2):
+    if not KINDS[kind]["double"]:
+        return base_pq
+    return base_dq_heavy if op in HEAVY else base_dq_light
 
 
 # --------------------------------------------------------------------------------------
-# STEP: core single-element operations
+# STEP: single-element operations
 # --------------------------------------------------------------------------------------
 def _core():
-    # (op, grow, heavy-on-dq)
     core = [("push", 1), ("change_priority", 0), ("change_priority_by", 0), ("remove", 0), ("pop_hi", 0)]
-    for kind, qmax, tmax in (("pq", 4, 7), ("dq", 3, 5)):
-        ops = list(core)
-        if kind == "dq":
-            ops.append(("pop_lo", 0))
-        ordp = "C01" if kind == "pq" else "C02"
+    for kind, tmax in (("pq", 7), ("dq", 5)):
+        ops = list(core) + ([("pop_lo", 0)] if kind == "dq" else [])
+        op_ = ordprop(kind)
         for op, grow in ops:
             for n in range(0, tmax + 1):
-                t = QUICK if n <= qmax else THOROUGH
-                if kind == "dq" and op == "change_priority_by" and n > 2:
-                    t = THOROUGH          # same sift path as change_priority
-                # order group -> C01/C02, model group -> C03, struct group from
-                # order-free states -> C04 (and the continuation half of C10)
-                step(op, kind, n, "inv", "or", {ordp: t}, grow=grow)
-                step(op, kind, n, "cs", "mo", {"C03": t}, grow=grow)
-                step(op, kind, n, "cs", "st", {"C04": t, "C10": t}, grow=grow)
+                # order group -> C01/C02; model group from order-free states -> C03;
+                # struct group from order-free states -> C04 and the continuation half of C10
+                t_or = tq(n, qmax_of(kind, op, 4), tmax)
+                t_mo = tq(n, qmax_of(kind, op, 3), tmax - 1)
+                t_st = tq(n, qmax_of(kind, op, 3), tmax - 1)
+                if kind == "dq" and op == "change_priority_by" and n >= 2:
+                    t_or = t_mo = t_st = THOROUGH    # same sift path as change_priority
+                step(op, kind, n, "inv", "or", {op_: t_or}, grow=grow)
+                step(op, kind, n, "cs", "mo", {"C03": t_mo, "C12": t_mo if op == "push" else None}, grow=grow)
+                step(op, kind, n, "cs", "st", {"C04": t_st, "C10": t_st}, grow=grow)
 
 
 _core()
 
 
+def _split():
+    """identity tables, concrete key: the order obligation case-split on the position of
+    the addressed element (keys 0..n-1 sit at positions 0..n-1; key n is absent)"""
+    for kind, sizes_q, sizes_t in (("dq", (3,), (4, 5, 6, 7)), ("pq", (), (8,))):
+        op_ = ordprop(kind)
+        for n in sizes_q + sizes_t:
+            t = QUICK if n in sizes_q else THOROUGH
+            for op, grow in (("push", 1), ("change_priority", 0), ("remove", 0)):
+                for k in range(0, n + 1):
+                    step(op, kind, n, "inv", "or", {op_: t}, tables=f"idk{k}", grow=grow,
+                         cost=(40 if kind == "dq" else 10) * n)
+
+
+_split()
+
+
 def _more():
-    for kind, qmax, tmax in (("pq", 4, 6), ("dq", 3, 5)):
-        ordp = "C01" if kind == "pq" else "C02"
+    for kind, tmax in (("pq", 6), ("dq", 5)):
+        op_ = ordprop(kind)
         ends = ["hi"] + (["lo"] if kind == "dq" else [])
         for n in range(0, tmax + 1):
-            t = QUICK if n <= qmax else THOROUGH
-            tq = QUICK if n <= qmax - 1 else THOROUGH
             # C11
             for op in ("push_increase", "push_decrease"):
+                t = tq(n, qmax_of(kind, op, 4), tmax)
                 step(op, kind, n, "inv", "all", {"C11": t}, grow=1)
-                step(op, kind, n, "cs", "st", {"C04": tq}, grow=1)
-            # pop_if family
+                step(op, kind, n, "cs", "st", {"C04": tq(n, qmax_of(kind, op, 2, 1, 1), tmax)}, grow=1)
+            # pop_if family, peek_mut family
             for e in ends:
-                step(f"pop_{e}_if", kind, n, "inv", "or", {ordp: t, "C08": t}, grow=0)
-                step(f"pop_{e}_if", kind, n, "cs", "mo", {"C03": tq, "C08": t}, grow=0)
-                step(f"pop_{e}_if", kind, n, "cs", "st", {"C04": tq}, grow=0)
-                step(f"peek_{e}_mut", kind, n, "inv", "all", {ordp: t, "C12": t}, grow=0)
-                step(f"peek_{e}_mut", kind, n, "cs", "st", {"C04": tq}, grow=0)
-            step("get_mut", kind, n, "inv", "all", {"C03": tq, "C12": t}, grow=0)
-            step("change_priority_item", kind, n, "inv", "all", {"C12": t}, grow=0)
+                op = f"pop_{e}_if"
+                t = tq(n, qmax_of(kind, op, 4), tmax)
+                t2 = tq(n, qmax_of(kind, op, 3, 2, 1), tmax)
+                step(op, kind, n, "inv", "or", {op_: t, "C08": t})
+                step(op, kind, n, "cs", "mo", {"C03": t2, "C08": t})
+                step(op, kind, n, "cs", "st", {"C04": t2})
+                op = f"peek_{e}_mut"
+                t = tq(n, 4 if kind == "pq" else 3, tmax)
+                step(op, kind, n, "inv", "all", {op_: t, "C12": t})
+                step(op, kind, n, "cs", "st", {"C04": tq(n, 2, tmax)})
+            t = tq(n, 3, tmax)
+            step("get_mut", kind, n, "inv", "all", {"C03": tq(n, 2, tmax), "C12": t})
+            t = tq(n, qmax_of(kind, "change_priority_item", 4), tmax)
+            step("change_priority_item", kind, n, "inv", "all", {"C12": t})
             # retain: one instance per concrete verdict pattern (see step.rs); quick: one
-            # pattern per survivor count (reject a prefix / reject a suffix alternating),
-            # thorough: every pattern
+            # pattern per survivor count, thorough: every pattern up to n = 4
             for op in ("retain_imm", "retain_mut"):
                 for pat in range(0, 1 << n):
                     c = bin(pat).count("1")
                     canon = ((1 << c) - 1) if c % 2 == 0 else (((1 << c) - 1) << (n - c))
-                    tp = t if pat == canon else THOROUGH
-                    if n > 4 and pat != canon:
+                    if pat != canon and n > 4:
                         continue
-                    retain(op, kind, n, pat, "inv", "all", {"C08": tp, ordp: tp})
+                    t = tq(n, 3, tmax) if pat == canon else THOROUGH
+                    retain(op, kind, n, pat, "inv", "all", {"C08": t, op_: t if op == "retain_mut" else THOROUGH})
                     if pat == canon:
-                        retain(op, kind, n, pat, "cs", "st", {"C04": tq})
-            step("clear", kind, n, "cs", "all", {"C16": t, "C04": tq}, grow=1)
+                        retain(op, kind, n, pat, "cs", "st", {"C04": tq(n, 2, tmax) if op == "retain_mut" else THOROUGH})
+            step("clear", kind, n, "cs", "all", {"C16": tq(n, 3, tmax), "C04": tq(n, 1, tmax)}, grow=1)
 
 
 _more()
 
 
 def _iters():
-    B = {True: "true", False: "false"}
-    for kind, qmax, tmax in (("pq", 4, 6), ("dq", 3, 5)):
+    for kind, tmax in (("pq", 6), ("dq", 5)):
         ty = KINDS[kind]["ty"]
-        ordp = "C01" if kind == "pq" else "C02"
+        op_ = ordprop(kind)
         for n in range(0, tmax + 1):
-            t = QUICK if n <= qmax else THOROUGH
-            tq = QUICK if n <= qmax - 1 else THOROUGH
+            t = tq(n, 4 if kind == "pq" else 3, tmax)
+            t1 = tq(n, 3 if kind == "pq" else 2, tmax)
             m = dict(kind=kind, n=n)
-            # iter_mut, prefix consumed, dropped: C08 (+ order restored: C01/C02)
+            # iter_mut, prefix consumed, dropped: C08 (+ order restored: C01/C02, payload: C12)
             for via in (False, True):
                 v = "ref" if via else "dir"
-                tt = t if not via else (tq if n in (1, 2) else THOROUGH)
+                tt = t if not via else (QUICK if n == 2 else THOROUGH)
                 inst(f"itermut_{kind}_prefix_n{n}_{v}_drop",
                      f"iters::iter_mut_prefix::<{ty}, {n}>(Pre::Inv, Tables::Any, step::ALL, false, {B[via]})",
-                     kind, n, {"C08": tt, ordp: tt}, "STEP",
+                     kind, n, {"C08": tt, op_: tt if not via else None, "C12": t1 if not via else None}, "STEP",
                      meta=dict(op="iter_mut", end="drop", via=v, pre="inv", group="all", **m),
                      covers_required=(n > 1))
             # leaked guard: order unspecified, safety not (C04, C10)
             inst(f"itermut_{kind}_prefix_n{n}_dir_forget",
                  f"iters::iter_mut_prefix::<{ty}, {n}>(Pre::CrashSafe, Tables::Any, step::STRUCT, true, false)",
-                 kind, n, {"C04": tq, "C10": tq}, "STEP",
+                 kind, n, {"C04": t1, "C10": t1}, "STEP",
                  meta=dict(op="iter_mut", end="forget", via="dir", pre="cs", group="st", **m),
                  covers_required=(n > 1))
             inst(f"itermut_{kind}_prefix_n{n}_dir_drop_cs",
                  f"iters::iter_mut_prefix::<{ty}, {n}>(Pre::CrashSafe, Tables::Any, step::STRUCT, false, false)",
-                 kind, n, {"C04": tq, "C10": tq}, "STEP",
+                 kind, n, {"C04": t1, "C10": t1}, "STEP",
                  meta=dict(op="iter_mut", end="drop", via="dir", pre="cs", group="st", **m),
                  covers_required=(n > 1))
             # protocol: C09
             for via in (False, True):
                 v = "ref" if via else "dir"
-                tt = t if not via else (tq if n in (1, 2) else THOROUGH)
+                tt = t if not via else (QUICK if n in (1, 2) else THOROUGH)
                 inst(f"itermut_{kind}_proto_n{n}_{v}",
                      f"iters::iter_mut_proto::<{ty}, {n}>({B[via]})",
                      kind, n, {"C09": tt}, "ITER",
@@ -163,12 +217,12 @@ def _iters():
             # C13
             for via in (False, True):
                 v = "ref" if via else "dir"
-                tt = t if not via else (tq if n in (1, 2) else THOROUGH)
+                tt = t if not via else (QUICK if n in (1, 2) else THOROUGH)
                 inst(f"iter_{kind}_proto_n{n}_{v}", f"iters::iter{'_ref' if via else ''}_proto::<{ty}, {n}>()",
-                     kind, n, {"C13": tt, "C03": tt}, "ITER", meta=dict(iter="iter", via=v, **m),
+                     kind, n, {"C13": tt, "C03": tt if not via else None}, "ITER", meta=dict(iter="iter", via=v, **m),
                      covers_required=(n > 1))
             inst(f"intoiter_{kind}_proto_n{n}", f"iters::into_iter_proto::<{ty}, {n}>()",
-                 kind, n, {"C13": t, "C03": tq}, "ITER", meta=dict(iter="into_iter", **m),
+                 kind, n, {"C13": t, "C03": t1}, "ITER", meta=dict(iter="into_iter", **m),
                  covers_required=(n > 1))
             inst(f"drain_{kind}_proto_n{n}", f"iters::drain_proto::<{ty}, {n}>(true)",
                  kind, n, {"C13": t}, "ITER", meta=dict(iter="drain", exact_size_checked=True, **m),
@@ -177,28 +231,323 @@ def _iters():
                  kind, n, {"C16": t}, "ITER", meta=dict(iter="drain", exact_size_checked=False, **m),
                  covers_required=(n > 1))
             inst(f"intovec_{kind}_n{n}", f"iters::into_vec::<{ty}, {n}>()",
-                 kind, n, {"C03": tq}, "ITER", meta=dict(iter="into_vec", **m))
+                 kind, n, {"C03": t1}, "ITER", meta=dict(iter="into_vec", **m))
             # C16
             for forget in (False, True):
                 e = "forget" if forget else "drop"
                 inst(f"drain_{kind}_n{n}_{e}", f"iters::drain::<{ty}, {n}>(Pre::CrashSafe, {B[forget]})",
-                     kind, max(n, 2), {"C16": t, "C04": tq, **({"C10": tq} if forget else {})}, "STEP",
+                     kind, max(n, 2), {"C16": t, "C04": tq(n, 1, tmax), "C10": t1 if forget else None}, "STEP",
                      meta=dict(op="drain", end=e, pre="cs", **m), covers_required=(n > 0))
         # C06: n chained pops; the min-max heap is the expensive half
         smax_q, smax_t = (4, 6) if kind == "pq" else (3, 5)
         for n in range(0, smax_t + 1):
-            t = QUICK if n <= smax_q else THOROUGH
+            t = tq(n, smax_q, smax_t)
             m = dict(kind=kind, n=n)
             inst(f"sorted_{kind}_iter_n{n}", f"iters::sorted_iter::<{ty}, {n}>()",
-                 kind, n, {"C06": t, "C13": t}, "ITER", meta=dict(iter="into_sorted_iter", **m))
+                 kind, n, {"C06": t, "C13": tq(n, 2, smax_t)}, "ITER", meta=dict(iter="into_sorted_iter", **m),
+                 cost=n * n * (20 if kind == "dq" else 4))
             inst(f"sorted_{kind}_vec_desc_n{n}", f"iters::sorted_vec::<{ty}, {n}>(false)",
-                 kind, n, {"C06": t}, "ITER", meta=dict(op="into_sorted_vec/desc", **m))
+                 kind, n, {"C06": t}, "ITER", meta=dict(op="into_sorted_vec/desc", **m),
+                 cost=n * n * (20 if kind == "dq" else 4))
             if kind == "dq":
                 inst(f"sorted_{kind}_vec_asc_n{n}", f"iters::sorted_vec::<{ty}, {n}>(true)",
-                     kind, n, {"C06": t}, "ITER", meta=dict(op="into_ascending_sorted_vec", **m))
+                     kind, n, {"C06": t}, "ITER", meta=dict(op="into_ascending_sorted_vec", **m),
+                     cost=n * n * 10)
 
 
 _iters()
+
+
+# --------------------------------------------------------------------------------------
+# bulk operations (C07) and BASE
+# --------------------------------------------------------------------------------------
+def seq_of(keys):
+    v = 0
+    for j, k in enumerate(keys):
+        assert 0 <= k < 16
+        v |= k << (4 * j)
+    return v
+
+
+HINTS = {"none": "bulk::H_NONE", "exact": "bulk::H_EXACT", "upper": "bulk::H_UPPER",
+         "lower": "bulk::H_LOWER", "far": "bulk::H_FAR", "max": "bulk::H_MAX", "lomax": "bulk::H_LOMAX"}
+
+
+def key_patterns(n, m):
+    """concrete key sequences of m pairs for a receiver over keys 0..n: 'a','b' are new
+    keys, 'x','y' existing ones; returns (tag, [keys])"""
+    a, b = n, n + 1
+    x, y = 0, max(n - 1, 0)
+    pats = {1: [("a", [a])], 2: [("ab", [a, b]), ("aa", [a, a])], 3: [("aba", [a, b, a])]}
+    if n > 0:
+        pats[1].append(("x", [x]))
+        pats[2] += [("xa", [x, a]), ("yy", [y, y])]
+        pats[3] += [("axa", [a, x, a]), ("xyx", [x, y, x])]
+    return pats[m]
+
+
+def _bulk():
+    for kind in ("pq", "dq"):
+        ty = KINDS[kind]["ty"]
+        op_ = ordprop(kind)
+        dq = kind == "dq"
+        nq = 3 if not dq else 1
+        nt = 5 if not dq else 4
+        # ---- extend, push strategy (receiver too small for a rebuild to be chosen)
+        for n in range(0, nt + 1):
+            for m in (1, 2, 3):
+                for tag, keys in key_patterns(n, m):
+                    for hname in ("none", "exact", "upper", "lower", "far", "max", "lomax"):
+                        if n > nq + 1 and not (m == 2 and hname in ("none", "exact", "far")):
+                            continue
+                        quick = n <= nq and (
+                            (m == 2 and hname == "none" and tag in ("xa", "aa", "ab")) or
+                            (m == 2 and hname == "exact" and tag in ("yy", "ab")) or
+                            (m == 1 and tag == "a" and n <= 1 and hname in ("upper", "far", "max", "lomax")) or
+                            (m == 3 and hname == "lower" and tag in ("aba", "axa") and not dq))
+                        t = QUICK if quick else THOROUGH
+                        inst(f"extend_{kind}_n{n}_m{m}_{tag}_{hname}",
+                             f"bulk::extend::<{ty}, {n}, {m}, {seq_of(keys)}>(Pre::Inv, Tables::Any, step::ALL, {HINTS[hname]})",
+                             kind, n + m, {"C07": t, op_: THOROUGH if hname in ("none", "exact") else None}, "STEP",
+                             meta=dict(op="extend", kind=kind, n=n, m=m, keys=keys, hint=hname, pre="inv", group="all"),
+                             covers_required=False, cost=(n + m) * m * (25 if dq else 4))
+            if n <= nq:
+                inst(f"extend_{kind}_n{n}_m2_cs",
+                     f"bulk::extend::<{ty}, {n}, 2, {seq_of([n, 0 if n else n + 1])}>(Pre::CrashSafe, Tables::Any, step::STRUCT, bulk::H_EXACT)",
+                     kind, n + 2, {"C04": QUICK if n <= 1 else THOROUGH}, "STEP",
+                     meta=dict(op="extend", kind=kind, n=n, m=2, hint="exact", pre="cs", group="st"),
+                     covers_required=False, cost=(n + 2) * 2 * (25 if dq else 4))
+        # ---- extend, rebuild strategy: receiver of 8 (identity tables), hint far above
+        for tag, keys in (("ab", [8, 9]), ("xa", [3, 8]), ("xx", [5, 5])):
+            for hname in ("far", "max"):
+                t = QUICK if (tag == "xa" and hname == "far" and not dq) else THOROUGH
+                inst(f"extend_{kind}_n8_m2_{tag}_{hname}_rebuild",
+                     f"bulk::extend::<{ty}, 8, 2, {seq_of(keys)}>(Pre::Inv, Tables::Identity, step::ALL, {HINTS[hname]})",
+                     kind, 10, {"C07": t, op_: THOROUGH}, "STEP",
+                     meta=dict(op="extend", kind=kind, n=8, m=2, keys=keys, hint=hname, strategy="rebuild", tables="identity"),
+                     covers_required=False, cost=900 if dq else 200, mem=10)
+            t = QUICK if (tag == "xa" and not dq) else THOROUGH
+            inst(f"extend_{kind}_n8_m2_{tag}_twin",
+                 f"bulk::extend_twin::<{ty}, 8, 2, {seq_of(keys)}>(Tables::Identity, bulk::H_NONE, bulk::H_FAR)",
+                 kind, 10, {"C07": t}, "STEP",
+                 meta=dict(op="extend twice, hint none vs far", kind=kind, n=8, m=2, keys=keys, tables="identity"),
+                 covers_required=False, cost=1000 if dq else 300, mem=10)
+        # ---- FromIterator / From<Vec>
+        for l in range(0, 5):
+            seqs = {0: [("e", [])], 1: [("a", [1])], 2: [("ab", [1, 2]), ("aa", [1, 1])],
+                    3: [("abc", [1, 2, 3]), ("aba", [1, 2, 1]), ("aab", [1, 1, 2])],
+                    4: [("abab", [1, 2, 1, 2]), ("abcd", [4, 3, 2, 1]), ("abca", [1, 2, 3, 1])]}[l]
+            for tag, keys in seqs:
+                t = tq(l, 3, 4)
+                inst(f"fromvec_{kind}_l{l}_{tag}", f"bulk::from_vec::<{ty}, {l}, {seq_of(keys)}>(step::ALL)",
+                     kind, l, {"C07": t, op_: t, "C04": t}, "BASE",
+                     meta=dict(ctor="From<Vec>", kind=kind, len=l, keys=keys), covers_required=False)
+                for hname in ("none", "exact", "upper", "lower", "far", "max"):
+                    t2 = QUICK if (l in (2, 3) and hname in ("none", "exact")) or (l == 1 and hname in ("far", "max", "upper", "lower")) else THOROUGH
+                    inst(f"fromiter_{kind}_l{l}_{tag}_{hname}",
+                         f"bulk::from_iter::<{ty}, {l}, {seq_of(keys)}>(step::ALL, {HINTS[hname]})",
+                         kind, l, {"C07": t2, op_: t2 if hname == "exact" else None, "C04": t2 if hname == "none" else None}, "BASE",
+                         meta=dict(ctor="FromIterator", kind=kind, len=l, keys=keys, hint=hname), covers_required=False)
+        for w, what in enumerate(("new", "with_capacity(0)", "with_capacity(1)", "with_capacity(5)")):
+            inst(f"ctor_{kind}_{w}", f"bulk::ctor::<{ty}>({w})", kind, 1,
+                 {op_: QUICK, "C04": QUICK, "C17": QUICK, "C03": QUICK}, "BASE", meta=dict(ctor=what, kind=kind), covers_required=False)
+        # ---- append
+        for n in range(0, nt + 1):
+            for m in (0, 1, 2, 3):
+                if n + m > nt + 1:
+                    continue
+                pats = [("new", list(range(n, n + m)))]
+                if n > 0 and m > 0:
+                    pats.append(("clash", [0] + list(range(n, n + m - 1))))
+                for tag, keys in pats:
+                    t = QUICK if (n <= (3 if not dq else 2) and m <= 2 and n + m <= (4 if not dq else 3)) else THOROUGH
+                    inst(f"append_{kind}_n{n}_m{m}_{tag}",
+                         f"bulk::append::<{ty}, {n}, {m}, {seq_of(keys)}>(Pre::Inv, Tables::Any, step::ALL)",
+                         kind, n + m, {"C07": t, op_: t}, "STEP",
+                         meta=dict(op="append", kind=kind, n=n, m=m, other_keys=keys, pre="inv", group="all"),
+                         covers_required=False, cost=(n + m) * (15 if dq else 4))
+            if n <= 2:
+                inst(f"append_{kind}_n{n}_m2_cs",
+                     f"bulk::append::<{ty}, {n}, 2, {seq_of([0 if n else 5, n + 1])}>(Pre::CrashSafe, Tables::Any, step::STRUCT)",
+                     kind, n + 2, {"C04": QUICK if n <= 1 else THOROUGH}, "STEP",
+                     meta=dict(op="append", kind=kind, n=n, m=2, pre="cs", group="st"), covers_required=False)
+        # ---- conversion to the other kind
+        for n in range(0, nt + 2):
+            # source kind `kind`; the cost is the heap_build of the *other* kind
+            other = "C02" if kind == "pq" else "C01"
+            t = tq(n, 4 if dq else 3, 9)
+            inst(f"convert_{kind}_n{n}", f"bulk::convert::<{ty}, {n}>(Pre::Inv, Tables::Any, step::ALL)",
+                 kind if dq else "dq", n, {"C07": t, other: t}, "STEP",
+                 meta=dict(op="From<other kind>", source=kind, n=n, pre="inv", group="all"),
+                 covers_required=False, cost=n * (4 if dq else 20))
+            inst(f"convert_{kind}_n{n}_cs", f"bulk::convert::<{ty}, {n}>(Pre::CrashSafe, Tables::Any, step::STRUCT)",
+                 kind if dq else "dq", n, {"C04": tq(n, 2, 9)}, "STEP",
+                 meta=dict(op="From<other kind>", source=kind, n=n, pre="cs", group="st"),
+                 covers_required=False, cost=n * (4 if dq else 20))
+
+
+_bulk()
+
+
+# --------------------------------------------------------------------------------------
+# C14, C17
+# --------------------------------------------------------------------------------------
+def _misc():
+    RES = {"reserve": "misc::R_RESERVE", "reserve_exact": "misc::R_RESERVE_EXACT", "try_reserve": "misc::R_TRY",
+           "try_reserve_exact": "misc::R_TRY_EXACT", "shrink_to_fit": "misc::R_SHRINK"}
+    for kind in ("pq", "dq"):
+        ty = KINDS[kind]["ty"]
+        dq = kind == "dq"
+        for n in range(0, 5):
+            for m in range(0, 5):
+                if abs(n - m) > 1 or n + m > 7:
+                    continue
+                t = QUICK if (n == m and n <= 3) or (n + m == 3) else THOROUGH
+                inst(f"eq_{kind}_n{n}_m{m}", f"misc::eq2::<{ty}, {n}, {m}>()", kind, max(n, m), {"C14": t}, "EQ",
+                     meta=dict(op="==", kind=kind, n=n, m=m), covers_required=(n == m and n > 0))
+            t = tq(n, 3 if not dq else 2, 4)
+            inst(f"clone_{kind}_n{n}", f"misc::clone_indep::<{ty}, {n}>()", kind, n + 1, {"C14": t}, "EQ",
+                 meta=dict(op="clone", kind=kind, n=n), covers_required=False, cost=(n + 1) * (40 if dq else 6))
+        for n in (0, 1, 2, 3, 4):
+            for opn, opx in RES.items():
+                amounts = [("0", "0", False), ("1", "1", False), ("5", "5", False)] if opn != "shrink_to_fit" else [("x", "0", False)]
+                if opn.startswith("try"):
+                    amounts += [("max", "usize::MAX", True), ("imax", "isize::MAX as usize", True),
+                                ("bytes", "usize::MAX / 16 + 1", True)]
+                for tag, amt, huge in amounts:
+                    quick = (n in (0, 2) and tag in ("1", "5", "x", "max", "bytes")) and not (dq and n == 2 and tag in ("1",))
+                    t = QUICK if quick else THOROUGH
+                    inst(f"cap_{kind}_{opn}_n{n}_{tag}",
+                         f"misc::capacity::<{ty}, {n}>({opx}, {amt}, {B[huge]})", kind, n + 1, {"C17": t}, "STEP",
+                         meta=dict(op=opn, kind=kind, n=n, additional=amt), covers_required=False,
+                         cost=(n + 1) * (40 if dq else 6), unwind_min=n + 10)
+
+
+_misc()
+
+
+# --------------------------------------------------------------------------------------
+# C15
+# --------------------------------------------------------------------------------------
+def _serde():
+    for src in ("pq", "dq"):
+        for dst in ("pq", "dq"):
+            s, d = KINDS[src]["ty"], KINDS[dst]["ty"]
+            for n in range(0, 5):
+                for hint in (True, False):
+                    t = QUICK if (n <= 3 and hint) or (n == 2 and not hint) else THOROUGH
+                    inst(f"serde_rt_{src}_{dst}_n{n}_{'hint' if hint else 'nohint'}",
+                         f"serde_h::roundtrip::<{s}, {d}, {n}>({B[hint]})", dst, n, {"C15": t}, "SERDE",
+                         meta=dict(op="serialize->deserialize", source=src, target=dst, n=n, size_hint=hint),
+                         covers_required=False, cost=n * (20 if dst == "dq" else 5))
+    for dst in ("pq", "dq"):
+        d = KINDS[dst]["ty"]
+        for l, seqs in {0: [("e", [])], 1: [("a", [1])], 2: [("ab", [1, 2]), ("aa", [3, 3])],
+                        3: [("abc", [1, 2, 3]), ("aba", [1, 2, 1]), ("aab", [2, 2, 1]), ("aaa", [4, 4, 4])],
+                        4: [("abab", [1, 2, 1, 2]), ("abca", [1, 2, 3, 1]), ("aabb", [1, 1, 2, 2])]}.items():
+            for tag, keys in seqs:
+                for hint in (True, False):
+                    t = QUICK if l <= 3 and (hint or tag in ("aa", "aba")) else THOROUGH
+                    inst(f"serde_any_{dst}_l{l}_{tag}_{'hint' if hint else 'nohint'}",
+                         f"serde_h::arbitrary::<{d}, {l}, {seq_of(keys)}>({B[hint]})", dst, l, {"C15": t}, "SERDE",
+                         meta=dict(op="deserialize pair sequence", target=dst, len=l, keys=keys, size_hint=hint),
+                         covers_required=False)
+
+
+_serde()
+
+
+# --------------------------------------------------------------------------------------
+# C05
+# --------------------------------------------------------------------------------------
+def _cost():
+    OPS = ["push", "change", "change_by", "remove", "pop_hi", "pop_lo", "pop_hi_if", "pop_lo_if",
+           "push_inc", "push_dec", "peek_hi", "peek_lo", "lookups", "rebuild"]
+    for kind in ("pq", "dq"):
+        ty = KINDS[kind]["ty"]
+        dq = kind == "dq"
+        for opi, op in enumerate(OPS):
+            if not dq and op in ("pop_lo", "pop_lo_if", "peek_lo"):
+                continue
+            heavy = op in ("push", "change", "change_by", "remove", "pop_hi_if", "push_inc", "push_dec")
+            light_q = op in ("peek_hi", "peek_lo", "lookups")
+            for n in (1, 2, 3, 4, 5, 6, 7, 8):
+                if dq:
+                    t = tq(n, 2 if heavy else 3, 5)
+                    if light_q:
+                        t = tq(n, 4, 8)
+                else:
+                    t = tq(n, 4 if op not in ("change_by", "push_dec") else 2, 8)
+                    if op in ("push", "change", "pop_hi") and n in (7, 8):
+                        t = QUICK            # sizes at which the budget separates log from linear
+                    if light_q:
+                        t = tq(n, 4, 8)
+                if t is None:
+                    continue
+                grow = 1 if op in ("push", "push_inc", "push_dec") else 0
+                inst(f"cost_{kind}_{op}_n{n}", f"cost::cost::<{ty}, {n}>({opi}, Tables::Any)", kind, n + grow,
+                     {"C05": t}, "COST", meta=dict(op=op, kind=kind, n=n, tables="any"), covers_required=False,
+                     cost=(n + 1) * (40 if dq and heavy else 8))
+            # identity tables, position split, at the sizes where two min levels are crossed
+            if op in ("push", "change", "remove", "pop_hi", "pop_lo"):
+                for n in (15, 16):
+                    keys = [0, 1, 3, 7, n - 1, n] if op in ("push", "change", "remove") else [0]
+                    for k in keys:
+                        grow = 1 if op == "push" else 0
+                        inst(f"cost_{kind}_{op}_n{n}_idk{k}", f"cost::cost::<{ty}, {n}>({opi}, Tables::IdentityKey({k}))",
+                             kind, n + grow, {"C05": THOROUGH}, "COST",
+                             meta=dict(op=op, kind=kind, n=n, tables=f"identity, key {k}"), covers_required=False,
+                             cost=2000 if dq else 600, mem=16 if dq else 8)
+
+
+_cost()
+
+
+# --------------------------------------------------------------------------------------
+# C10 crash points
+# --------------------------------------------------------------------------------------
+def _crash():
+    OPS = ["push", "change", "change_by", "remove", "pop_hi", "pop_lo", "pop_hi_if", "pop_lo_if",
+           "push_inc", "push_dec", "iter_mut_drop"]
+    for kind in ("pq", "dq"):
+        ty = KINDS[kind]["ty"]
+        dq = kind == "dq"
+        for opi, op in enumerate(OPS):
+            if not dq and op in ("pop_lo", "pop_lo_if"):
+                continue
+            heavy = op in ("push", "change", "change_by", "remove", "pop_hi_if", "push_inc", "push_dec")
+            for n in range(1, 6):
+                t = tq(n, (2 if heavy else 3) if dq else 3, 4 if dq else 5)
+                if op in ("change_by", "push_dec") and n >= 2:
+                    t = THOROUGH if t else None
+                if t is None:
+                    continue
+                grow = 1 if op in ("push", "push_inc", "push_dec") else 0
+                inst(f"crash_{kind}_{op}_n{n}", f"crash::crash::<{ty}, {n}>({opi}, Tables::Any)", kind, n + grow,
+                     {"C10": t}, "CRASH", meta=dict(op=op, kind=kind, n=n, pre="cs", callbacks="Ord, Eq, Hash, closures"),
+                     covers_required=False, cost=(n + 1) * (50 if dq and heavy else 10))
+
+
+_crash()
+
+
+# --------------------------------------------------------------------------------------
+# C18: every hash value is an unconstrained fresh u64
+# --------------------------------------------------------------------------------------
+def _hasher():
+    for kind, base in (("pqn", "pq"), ("dqn", "dq")):
+        dq = base == "dq"
+        for op, grow in (("push", 1), ("change_priority", 0), ("remove", 0), ("push_increase", 1), ("get_mut", 0),
+                         ("pop_hi", 0), ("change_priority_item", 0)):
+            for n in range(0, 5):
+                t = tq(n, qmax_of(base, op, 3, 2, 2), 4)
+                if dq and op in ("push_increase", "change_priority_item") and n >= 2:
+                    t = THOROUGH
+                grp = "all" if op in ("push_increase", "get_mut", "change_priority_item") else "mo"
+                step(op, kind, n, "inv", grp, {"C18": t}, grow=grow)
+
+
+_hasher()
 
 
 def select(prop, tier):
@@ -210,3 +559,12 @@ def select(prop, tier):
         if tier == THOROUGH or t == QUICK:
             out.append(i)
     return out
+
+
+if __name__ == "__main__":
+    props = sorted({p for i in INSTANCES for p in i["props"]})
+    for p in props:
+        q = select(p, QUICK)
+        t = select(p, THOROUGH)
+        print(p, "quick", len(q), "cost", sum(i["cost"] for i in q), "| thorough", len(t), "cost", sum(i["cost"] for i in t))
+    print("total", len(INSTANCES))
